@@ -5,11 +5,12 @@ PROPERTIES OtherBucketsUntouched OnlyWritesChange OnlyTargetChanges
 CHECK_DEADLOCK FALSE
 CONSTANTS
  Buckets = {"u", "u2"}
- Names <- SmallNames
+ Names <- QuickNames
  Datas = {"d0", "d1"}
- Prefixes <- SmallPrefixes
+ Prefixes <- QuickPrefixes
  MaxOps = 3
  Styles = {"write", "nowrite"}
  EmptyData = "d0"
  CopyOn = FALSE
  CopyMiss = {}
+ Handles = {1}
